@@ -44,7 +44,7 @@ make -s -C "$V" -j"$JOBS" VDIR="$V" VARIANT="$variant" HV="$( [ "$variant" = thr
 	CXX="$CXX" CC="$CC" HFLAGS="$HFLAGS" CFGDIR="$B/$CFG" REPO="$REPO" harness
 
 HV=$variant; [ "$variant" = thrassert ] && HV=thr
-WRAPS="malloc,calloc,realloc,free,strdup,vasprintf,read,write,open,close,uselocale,newlocale,duplocale,freelocale,setlocale,arc4random,arc4random_buf,arc4random_uniform"
+WRAPS="malloc,calloc,realloc,free,strdup,vasprintf,read,write,open,close,uselocale,newlocale,duplocale,freelocale,setlocale,arc4random,arc4random_buf,arc4random_uniform,getrandom,getentropy,fstat,fstat64,lseek,lseek64"
 OUT=$B/jsim-$variant
 [ "$HV" = thr ] && WRAPS="$WRAPS,pthread_mutex_lock,pthread_mutex_unlock,pthread_mutex_trylock"
 $CXX -no-pie $LDX -o "$OUT.tmp" "$B/h-$HV"/*.o "$OD"/*.o -Wl,--wrap=${WRAPS//,/ -Wl,--wrap=} -lm -ldl -lpthread
